@@ -244,15 +244,22 @@ Definition approx (x y : list ev) : Prop :=
 
 Definition crlf (s : list sym) : list sym := flat_map (fun c => match c with Nl => [Cr; Nl] | _ => [c] end) s.
 
-(* one physical line [l'] is a re-indentation of [l] by the column map [f] *)
-Definition reindent_line (f : nat -> nat) (l l' : list sym) : Prop :=
+(* one physical line [l'] is a re-indentation of [l] by the column map [f]: the leading run of blanks
+   (spaces, tabs, CRs) of width w is replaced by a run of width [f w].  [W] is the set of columns on which
+   [f] is required to be monotone (all columns that occur); blank lines and comment-only lines may get any
+   leading blanks at all. *)
+Definition reindent_line (W : nat -> Prop) (f : nat -> nat) (l l' : list sym) : Prop :=
   exists ws ws' body, l = ws ++ body /\ l' = ws' ++ body /\ blanks ws /\ blanks ws' /\
-    match body with [] => True | c :: _ => is_blank c = false end /\ width ws' = f (width ws).
+    match body with
+    | [] => True
+    | Hash :: _ => True
+    | c :: _ => is_blank c = false /\ W (width ws) /\ width ws' = f (width ws)
+    end.
 
-Inductive reindented (f : nat -> nat) : list sym -> list sym -> Prop :=
-| ri_last l l' : no_nl l -> reindent_line f l l' -> reindented f l l'
-| ri_cons l l' r r' : no_nl l -> reindent_line f l l' -> reindented f r r' ->
-                      reindented f (l ++ Nl :: r) (l' ++ Nl :: r').
+Inductive reindented (W : nat -> Prop) (f : nat -> nat) : list sym -> list sym -> Prop :=
+| ri_last l l' : no_nl l -> reindent_line W f l l' -> reindented W f l l'
+| ri_cons l l' r r' : no_nl l -> reindent_line W f l l' -> reindented W f r r' ->
+                      reindented W f (l ++ Nl :: r) (l' ++ Nl :: r').
 
 Definition map_err (f : nat -> nat) (e : ev) : ev :=
   match e with E (EInconsistent a b) => E (EInconsistent (f a) (f b)) | x => x end.
